@@ -67,6 +67,10 @@ def maybe_bad(a):
     return "zz" if a.endswith("3") else str(int(a) + 1)
 def dashed(a):
     return a[0] + "-" + a[1]
+def to_up(low):
+    return low.upper()
+def to_low(up):
+    return up.lower()
 '''
 # template: (grammar text, {nt: (function name, [param symbols])}, {nt: regex of the rule}, symbols that may be replaced "outside")
 TEMPLATES = [
@@ -80,12 +84,17 @@ TEMPLATES = [
      {"<m>": ("maybe_bad", ["<a>"])}, {"<m>": r"[0-3]+"}, ["<c>"]),
     ('<start> ::= <rec>{1,3}\n<rec> ::= <d> "=" <c> ";"\n<d> ::= <nz> "-" <nz> := gen("<d>", dashed, <a>)\n<a> ::= <nz> <nz>\n<c> ::= <nz> | <c> <nz>\n<nz> ::= "1" | "2" | "3"\n',
      {"<d>": ("dashed", ["<a>"])}, {"<d>": r"[1-3]-[1-3]"}, ["<c>"]),
+    # a converter pair: each of the two fields is the generator argument of the other
+    ('<start> ::= <up> "-" <low> "-" <c>\n<up> ::= <U> <U> := gen("<up>", to_up, <low>)\n<low> ::= <L> <L> := gen("<low>", to_low, <up>)\n'
+     '<U> ::= "A" | "B" | "C"\n<L> ::= "a" | "b" | "c"\n<c> ::= <L>+\n',
+     {"<up>": ("to_up", ["<low>"]), "<low>": ("to_low", ["<up>"])}, {"<up>": r"[ABC]{2}", "<low>": r"[abc]{2}"}, ["<c>"]),
 ]
 CONSTRAINTS = {
     0: ['int(<total>) > 2000', 'str(<k>) == "5"', 'int(<c>) > 20 and int(<total>) % 2 == 0', 'str(<total>) == "1111"', 'int(<k>) == 13', 'int(<c>) == 23'],
     1: ['int(<x>) > 2000', 'str(<r>) == "77"', 'int(<r>) > 30', 'str(<x>).startswith("3")', 'int(<c>) > 15'],
     2: ['int(<m>) > 20', 'str(<m>) == "5"', 'len(str(<c>)) > 2'],
     3: ['str(<d>) == "1-1"', 'len(str(<start>)) > 12', 'forall <r> in <rec>: str(<r>.<d>) != "2-2"'],
+    4: ['str(<up>) != "AA"', 'str(<low>) == "ab"', 'str(<up>) == "BC"', 'len(str(<c>)) > 3'],
 }
 
 
@@ -151,7 +160,9 @@ class World:
         if self.grammar.is_use_generator(t):
             out.append(t)
             for s in sorted(t.sources, key=lambda s: s.symbol.name()):
-                self.field_nodes(s, out)
+                # a recorded argument is a field of its own only if it was generated itself (a generator without parameters, or recorded arguments)
+                if s.symbol.name() in self.gens and (not self.gens[s.symbol.name()][1] or s.sources):
+                    self.field_nodes(s, out)
             return out
         for c in t.children:
             self.field_nodes(c, out)
@@ -159,7 +170,7 @@ class World:
 
     def field_of(self, n):
         nt = n.symbol.name()
-        if getattr(self, "gens", None) and self.gens[nt][0] == "pick":
+        if not getattr(self, "e2e", False) and self.gens[nt][0] == "pick":
             # a random generator is no function of its arguments: for the operator-level model the drawn value counts as a pseudo-argument
             return (nt, (("#drawn", str(n)),), str(n))
         return (nt, tuple(sorted((s.symbol.name(), str(s)) for s in n.sources)), str(n))
@@ -292,7 +303,13 @@ def do_op(w, rng):
             except FandangoError as e:
                 return term, "Error", f"adopting {v!r} for {nt} raised {type(e).__name__}"
             w.pop[i] = t2
-            return term, ("Refused" if (str(t2), w.fields(t2)) == before else "Done"), f"adopt: {nt} {str(n)!r} replaced by the parse of {v!r}"
+            if (str(t2), w.fields(t2)) == before:
+                return term, "Refused", f"adopt: {nt} {str(n)!r} replaced by the parse of {v!r}"
+            # the implementation adopted the text and derived arguments for it: the model accepts that only if the generator yields this text for them
+            f2 = w.fields(t2)
+            if len(f2) == len(before[1]) and f2[k][0] == nt:
+                term = f"(OAdoptDerived {coq_nat(i)} {coq_nat(k)} {args_term(f2[k][1])} {text_term(f2[k][2])})"
+            return term, "Done", f"adopt: {nt} {str(n)!r} replaced by the parse of {v!r}"
         if kind == "copy":
             if not top_level:
                 return None
@@ -346,6 +363,10 @@ def foreign_value(w, rng, nt, current):
     for _ in range(20):
         if nt == "<d>":
             v = rng.choice("123") + "-" + rng.choice("123")
+        elif nt == "<up>":
+            v = rng.choice("ABC") + rng.choice("ABC")
+        elif nt == "<low>":
+            v = rng.choice("abc") + rng.choice("abc")
         else:
             v = "".join(rng.choice("0123") for _ in range(rng.randint(1, 3)))
         if v != current and pyre.fullmatch(w.rules[nt], v):
@@ -420,7 +441,7 @@ def classify_known(info, code):
     h = info["history"]
     if not (0 <= idx < len(h)) or not h[idx].endswith("=> Done"):
         return None
-    if h[idx].startswith("OAdopt:"):
+    if h[idx].startswith("OAdopt:") or h[idx].startswith("OAdoptDerived:"):
         return "adopt"
     if info["template"] == 1 and (h[idx].startswith("ORefuzzField: mutation: <x>") or h[idx].startswith("OCopyField: crossover: <x>")):
         return "redraw"
@@ -452,6 +473,8 @@ def e2e_worker(args):
         log = g._global_variables["LOG"]
         w = World.__new__(World)
         w.grammar = g
+        w.gens = gens
+        w.e2e = True
         seen, observed = set(), []
         orig = Evaluator.evaluate_individual
 
